@@ -11,7 +11,7 @@ ENGINE = 'E1 full product'
 RULE = ("vrl x object-name length x payload length (0..40 and k*cap+{-2..2}) x kind {bytes, bytearray, str} x tail "
         "{plain, 01, 00, ff}, single payloads; plus all ordered sequences of 2..3 payloads from a 6-length window over "
         "1..2 NO-FORMAT objects in every interleaving; a third of the cases is written twice with the same objects, another third "
-        "twice with the payloads changed in between (bytearrays in place, others through the record's data attribute), "
+        "twice with the payloads changed in between (bytearrays in place, others through the record's data attribute), half of the rewritten cases with the NO-FORMAT objects moved to a second origin between the writes, "
         "and the second file is checked; plus 2..3 logical files with 0..2 payloads each, added in every interleaving "
         "across the files (each file must hold exactly its own); non-trivial = file written and type-1 IFLRs compared")
 ASSUMPTIONS = ["strict reader mc/rp66.py", "reference model mc/model.py"]
@@ -144,7 +144,7 @@ def make_spec(case):
     return sp
 
 
-def _write_twice(sp, change=False):
+def _write_twice(sp, change=False, reidentify=False):
     """Write the same objects twice; returns the result of the SECOND write (run_spec-like). With ``change`` the
     payloads are changed between the writes: bytearrays are modified in place (the caller's own buffer), the others
     are replaced through the record's ``data`` attribute; sp['ops'] is updated to what the second file must hold."""
@@ -157,6 +157,12 @@ def _write_twice(sp, change=False):
     path = os.path.join(scratch_dir(), 'c16-twice.dlis')
     try:
         b.df.write(path, **S.write_kwargs(sp, b))
+        if reidentify:
+            # the NO-FORMAT objects are moved to the second origin: the records must follow their object
+            for op in [o for o in sp['ops'] if o['op'] == 'add' and o['kind'] == 'no_format']:
+                new_op = {'op': 'origin_ref', 'h': op['h'], 'value': 5}
+                S.apply_op(b, new_op)
+                sp['ops'].append(new_op)
         if change:
             for op in sp['ops']:
                 if op['op'] != 'nfdata':
@@ -192,7 +198,11 @@ def run_case(case):
     # every third case of a shard is written twice with the same objects; the second file is the one that is checked
     k = (sum(n for _, n, _, _ in case['seq']) + len(case['seq'])) % 3
     twice = k != 1
-    res = _write_twice(sp, change=(k == 2)) if twice else S.run_spec(sp)
+    # every other rewritten case also moves the NO-FORMAT objects to a second origin between the writes
+    reid = twice and (sum(n for _, n, _, _ in case['seq']) // 3) % 2 == 1
+    if reid:
+        sp['ops'].insert(2, S.op_origin('O5', 'SECOND-ORIGIN', origin_reference=5))
+    res = _write_twice(sp, change=(k == 2), reidentify=reid) if twice else S.run_spec(sp)
     if res['failed_at'] is not None:
         return Outcome('build-raised', [("C16:build-raised", f"{res['status'][-1]} | {case}")], False)
     if res['write'] != 'ok':
@@ -210,7 +220,8 @@ def run_case(case):
             viol.append((sig, f"{d} | {case}"))
     except R.FormatError as e:
         viol.append((f"C16:unparsable:{e.code}", f"{e} | {case}"))
-    return Outcome('ok:%d%s' % (len(case['seq']), (':second-write', '', ':second-write-changed-payloads')[k] if twice else ''),
+    return Outcome('ok:%d%s%s' % (len(case['seq']), (':second-write', '', ':second-write-changed-payloads')[k] if twice else '',
+                                 ':moved-to-other-origin' if reid else ''),
                    viol, True, digest=sha(res['data']))
 
 
